@@ -26,7 +26,7 @@ import (
 )
 
 var st = stat.New("C09",
-	"Case = one proxy (in a third of the cases two proxy objects for the same object string, used alternately: they share connection and pending-reply table) + scripted server, generated client limits (calls in flight per proxy 1..6 or default, send queue length 1..4 or default), 1..8 steps; step = 1..12 concurrent calls (or one) each with {timeout source: proxy default (TarsSetTimeout) | per-call (current.SetClientTimeout) | context deadline; value 60..300 ms; two-way or one-way} and a peer behaviour per request from {answer, answer after the deadline, reply split in two pieces 5 ms apart, reply split with the second piece after the deadline and after the client's read timeout, silent, close connection now, close in the middle of the response, garbage bytes, illegal length prefix}; between steps the server may stop listening (dials are refused) and come back. Oracle per call: returns (watchdog 20 s), wall clock <= effective deadline + 150 ms + 10% (an overrun is re-measured by re-running the case alone twice; unconfirmed => inconclusive), outcome is reply or error; a call whose complete reply the server had written >= 150 ms before its deadline must succeed when neither this nor the previous step scripts a connection fault. After quiescence (all calls returned, all scripted late replies delivered, +60 ms): the proxy's in-flight counter, the size of the pending-reply tables and the manager's invocation counter are back to 0; a late reply changes no other call's outcome (checked by serial as in C08). Non-trivial = case with >=1 timed-out call, >=1 peer fault and a later successful call. Distinct = distinct case JSON. Establishment sub-check: endpoint transport tcp | ssl, a peer that accepts the TCP connection and then is silent | closes after 0..200 ms | sends garbage (so that on ssl the TLS handshake never completes), 1..3 sequential calls with per-call or context timeouts 100..600 ms and a dial timeout of 400 ms; oracle: each call returns (watchdog 20 s) with an error within timeout + dial timeout + 150 ms + 10% (re-measured twice), the counters are back to 0 afterwards.",
+	"Case = one proxy (in a third of the cases two proxy objects for the same object string, used alternately: they share connection and pending-reply table) + scripted server, generated client limits (calls in flight per proxy 1..6 or default, send queue length 1..4 or default), 1..8 steps; step = 1..12 concurrent calls (or one) each with {timeout source: proxy default (TarsSetTimeout) | per-call (current.SetClientTimeout) | context deadline; value 60..300 ms; two-way or one-way} and a peer behaviour per request from {answer, answer after the deadline, answer in the instant of the deadline, answer twice, reply split in two pieces 5 ms apart, reply split with the second piece after the deadline and after the client's read timeout, silent, close connection now, close in the middle of the response, garbage bytes, illegal length prefix}; between steps the server may stop listening (dials are refused) and come back. Oracle per call: returns (watchdog 20 s), wall clock <= effective deadline + 150 ms + 10% (an overrun is re-measured by re-running the case alone twice; unconfirmed => inconclusive), outcome is reply or error; a call whose complete reply the server had written >= 150 ms before its deadline must succeed when neither this nor the previous step scripts a connection fault. After quiescence (all calls returned, all scripted late replies delivered, +60 ms): the proxy's in-flight counter, the size of the pending-reply tables and the manager's invocation counter are back to 0; a late reply changes no other call's outcome (checked by serial as in C08). Non-trivial = case with >=1 timed-out call, >=1 peer fault and a later successful call. Distinct = distinct case JSON. Establishment sub-check: endpoint transport tcp | ssl, a peer that accepts the TCP connection and then is silent | closes after 0..200 ms | sends garbage (so that on ssl the TLS handshake never completes), 1..3 sequential calls with per-call or context timeouts 100..600 ms and a dial timeout of 400 ms; oracle: each call returns (watchdog 20 s) with an error within timeout + dial timeout + 150 ms + 10% (re-measured twice), the counters are back to 0 afterwards.",
 	"on loopback a connection is established or refused within a millisecond, so the connection-establishment bound of the property contributes nothing to the deadline; black-holed addresses (slow dials) cannot be produced offline",
 	"the per-connection in-flight counter (transport level) is observed and reported as a class, not asserted: the property's state list names the proxy counter, the pending-reply table and the manager counter")
 
@@ -81,7 +81,7 @@ func draw(rt *rapid.T) Case {
 				cl.TimeoutMs = c.ProxyTimeoutMs
 			}
 			cl.OneWay = rapid.IntRange(0, 7).Draw(rt, "oneway") == 0
-			cl.Peer = rapid.SampledFrom([]string{"answer", "answer", "answer", "late", "silent", "close", "close-mid", "garbage", "illegal-len", "split-fast", "split-late", "split-late"}).Draw(rt, "peer")
+			cl.Peer = rapid.SampledFrom([]string{"answer", "answer", "answer", "late", "silent", "close", "close-mid", "garbage", "illegal-len", "split-fast", "split-late", "split-late", "dup", "edge", "edge"}).Draw(rt, "peer")
 			stp.Calls = append(stp.Calls, cl)
 		}
 		c.Steps = append(c.Steps, stp)
@@ -144,6 +144,19 @@ func runOnce(c Case) verdict {
 		case "late":
 			go func() {
 				time.Sleep(time.Duration(cl.TimeoutMs+60) * time.Millisecond)
+				s.Reply(r.Conn, r.Version, r.ID, 0, "", "late", 0)
+			}()
+		case "dup":
+			// the reply and, right behind it, a second copy nobody waits for any more
+			go func() {
+				s.Reply(r.Conn, r.Version, r.ID, 0, "", "own", 0)
+				s.Reply(r.Conn, r.Version, r.ID, 0, "", "late", 0)
+			}()
+		case "edge":
+			// a reply that arrives in the instant the call runs into its deadline (it may make
+			// it or not; either way it must not reach anybody else)
+			go func() {
+				time.Sleep(time.Duration(cl.TimeoutMs)*time.Millisecond - 600*time.Microsecond)
 				s.Reply(r.Conn, r.Version, r.ID, 0, "", "late", 0)
 			}()
 		case "split-fast", "split-late":
@@ -236,6 +249,9 @@ func runOnce(c Case) verdict {
 			if cl.Peer == "late" && cl.TimeoutMs+60 > maxLate {
 				maxLate = cl.TimeoutMs + 60
 			}
+			if cl.Peer == "edge" && cl.TimeoutMs+10 > maxLate {
+				maxLate = cl.TimeoutMs + 10
+			}
 			if cl.Peer == "split-late" && cl.TimeoutMs+130 > maxLate {
 				maxLate = cl.TimeoutMs + 130
 			}
@@ -306,7 +322,7 @@ func runOnce(c Case) verdict {
 					v.f = stat.Failf("deadline-overrun", "step %d call %d (%s timeout %d ms, peer %s): returned after %v (limit %v) with err=%v", si, i, cl.Source, cl.TimeoutMs, cl.Peer, r.took.Round(time.Millisecond), limit, r.err)
 				}
 			}
-			if r.err != nil && !cl.OneWay && (cl.Peer == "answer" || cl.Peer == "split-fast") && clean {
+			if r.err != nil && !cl.OneWay && (cl.Peer == "answer" || cl.Peer == "split-fast" || cl.Peer == "dup") && clean {
 				if at, ok := answered.Load(r.tok); ok {
 					if left := r.start.Add(time.Duration(cl.TimeoutMs) * time.Millisecond).Sub(at.(time.Time)); left >= 150*time.Millisecond {
 						return verdict{f: stat.Failf("healthy-call-failed", "step %d call %d (peer %s, timeout %d ms): the complete reply had been written %v before the deadline and no connection fault was scripted in this or the previous step, yet the call failed: %v", si, i, cl.Peer, cl.TimeoutMs, left.Round(time.Millisecond), r.err)}
@@ -314,7 +330,7 @@ func runOnce(c Case) verdict {
 				}
 			}
 			if r.err == nil && !cl.OneWay {
-				if cl.Peer != "answer" && cl.Peer != "late" && cl.Peer != "split-fast" && cl.Peer != "split-late" {
+				if cl.Peer != "answer" && cl.Peer != "late" && cl.Peer != "split-fast" && cl.Peer != "split-late" && cl.Peer != "dup" && cl.Peer != "edge" {
 					return verdict{f: stat.Failf("phantom-success", "step %d call %d: peer behaviour %q never sends a valid reply, yet the call succeeded", si, i, cl.Peer)}
 				}
 				s, ok := bySerial[r.serial]
